@@ -43,6 +43,12 @@ impl<S: Storage> InsertExecutor<S> {
         #[for_await]
         for chunk in child {
             let chunk = Evaluator::new(&expr).eval_list(&chunk?)?;
+            // reject NULLs in NOT NULL columns
+            for (col, array) in columns.iter().zip(chunk.arrays()) {
+                if !col.is_nullable() && array.iter().any(|v| v.is_null()) {
+                    Err(ExecutorError::not_nullable())?;
+                }
+            }
             cnt += chunk.cardinality();
             txn.append(chunk).await?;
         }
